@@ -348,7 +348,9 @@ def tensordot(lhs, rhs, axes=2):
     if concatenate:
         return intermediate
     else:
-        return intermediate.sum(axis=left_axes)
+        # the partial products already have the result type: adding them must
+        # not promote it (np.sum turns small integers into the platform integer)
+        return intermediate.sum(axis=left_axes, dtype=dt)
 
 
 @derived_from(np, ua_args=["out"])
@@ -468,7 +470,7 @@ def matmul(a, b):
     # this issue: https://github.com/dask/dask/issues/6874
 
     # We will also perform the reduction without concatenation
-    out = _sum_wo_cat(out, axis=-2)
+    out = _sum_wo_cat(out, axis=-2, dtype=out.dtype)
 
     if a_is_1d:
         out = out.squeeze(-2)
